@@ -3551,6 +3551,11 @@ debug={debug},
         ##   this while I build the API
         #    raise NotImplementedError
 
+        if self.config_objs.search_safe is False:
+            error = "The configuration has changed since the last commit; a config search is not safe."
+            logger.critical(error)
+            raise NotImplementedError(error)
+
         for cobj in self.config_objs:
             # Only process parent objects at the root of the tree...
             if cobj.parent is not cobj:
